@@ -142,14 +142,11 @@ func (s *Statement) commitEvict(reclaimee *pod_info.PodInfo, evictOp evictOperat
 			reclaimee.Namespace, reclaimee.Name, reclaimee.Job)
 	}
 
-	previousStatus := reclaimee.Status
-	previousGpuGroup := reclaimee.GPUGroups
-	previousResourceClaimInfo := reclaimee.ResourceClaimInfo
-	previousIsVirtualStatus := reclaimee.IsVirtualStatus
 	if err := s.ssn.Cache.Evict(reclaimee.Pod, reclaimeePodGroup, evictOp.evictionMetadata, evictOp.message); err != nil {
 		log.InfraLogger.Errorf("Failed to evict task <%v/%v>: %v.", reclaimee.Namespace, reclaimee.Name, err)
-		if e := s.unevict(reclaimee, previousStatus, evictOp.previousNode, previousGpuGroup, previousResourceClaimInfo,
-			previousIsVirtualStatus); e != nil {
+		// The pod keeps running: restore the state it had before the (virtual) eviction. (Un-evicting with the task's
+		// current values would leave it releasing while charging its queue again.)
+		if e := evictOp.Reverse(); e != nil {
 			log.InfraLogger.Errorf("Failed to un-evict task <%v/%v>: %v.",
 				reclaimee.Namespace, reclaimee.Name, e)
 		}
